@@ -512,3 +512,37 @@ impl CryptoRig {
     }
   }
 }
+
+// ---- strengthening round: inventory of key ids ----
+/// The key ids (4 bytes, as they appear in a CryptoHeader) of the key materials one plugin owns.
+/// `sub` = endpoint key material for submessages (first of the sequence), `pay` = endpoint key
+/// material for payloads (second of the sequence if the endpoint has two, else the same as `sub`),
+/// `two` = the endpoint owns two distinct key materials.
+#[derive(Clone, Debug, Default)]
+pub struct KeyIds {
+  pub part: Option<[u8; 4]>,
+  pub sub: Option<[u8; 4]>,
+  pub pay: Option<[u8; 4]>,
+  pub two: bool,
+}
+
+fn kid_bytes(k: &crate::security::cryptographic::CryptoTransformKeyId) -> Option<[u8; 4]> {
+  k.write_to_vec().ok().and_then(|v| <[u8; 4]>::try_from(v.as_slice()).ok())
+}
+
+impl CryptoRig {
+  pub fn key_ids(&self, p: usize) -> KeyIds {
+    let mut out = KeyIds::default();
+    if let Some(h) = self.part.get(p).copied().flatten() {
+      let ids = self.plugins[p].verif_local_sender_key_ids(h);
+      out.part = ids.first().and_then(kid_bytes);
+    }
+    if let Some(h) = self.ep.get(p).copied().flatten() {
+      let ids = self.plugins[p].verif_local_sender_key_ids(h);
+      out.sub = ids.first().and_then(kid_bytes);
+      out.pay = ids.get(1).or(ids.first()).and_then(kid_bytes);
+      out.two = ids.len() > 1;
+    }
+    out
+  }
+}
